@@ -25,6 +25,15 @@ CHECKS = {
         design="§8 C06",
         technique="Lean 4 proof over tables regenerated from source + exhaustive L1 differential (real macro expansion vs model)",
         note=TB + " Modelled, not verified: the body of msg.dispatch (C02/C03), cosmwasm_std::entry_point."),
+    "C13": dict(
+        text="Pass-through: machine-checked proof, on the model of the StripInput fold, that no method is dropped/reordered, bodies/visibility/generics are untouched, exactly "
+             "the foreign attributes survive at item and method level, parameters of non-handler methods are untouched, handler parameters lose only their attributes, "
+             "stripping is idempotent. The fold's source forms and the framework-attribute table are re-read from the source on every run; the real expansion's first item is "
+             "compared (a) with the model's prediction and (b) with an independent restatement of the rule, on generated items and on every macro-annotated item of the "
+             "repository's tests and examples. Determinism is observed (twice in-process, once in a second process), not proved: partial for that clause.",
+        design="§8 C13",
+        technique="Lean 4 proof on a fold model tied by source-form recognition + L1 differential; determinism by repeated expansion",
+        note=TB + " Determinism of the real expander is exploration only. syn's parser/printer are trusted."),
 }
 
 ALL = ["C%02d" % i for i in range(1, 21)]
@@ -41,12 +50,12 @@ def main():
             "enable": "SYLVIA_VERIF_HARNESS=/verif/harness/hook/hook_main.rs cargo test --offline -p sylvia-derive --features verif-hook --lib -- verif_hook::verif_entry --exact",
             "baseline_off_cmd": "cd /repo && cargo test --workspace --no-fail-fast --offline",
             "source_commits": ["f0dc71d"],
-            "fix_commits": ["a51e7a3"],
+            "fix_commits": ["a51e7a3", "fead2e3"],
             "add_only": True,
         },
         "engines": [
             {"name": "lean", "path": "lean/", "serves_properties": sorted(CHECKS), "kind_free_text": "Lean 4 model + theorems + svmodel line-protocol driver"},
-            {"name": "hook", "path": "harness/hook/", "serves_properties": ["C06"], "kind_free_text": "in-process macro expansion + source translator, compiled into sylvia-derive tests via the verif-hook feature (L1)"},
+            {"name": "hook", "path": "harness/hook/", "serves_properties": ["C06", "C13"], "kind_free_text": "in-process macro expansion + source translator, compiled into sylvia-derive tests via the verif-hook feature (L1)"},
             {"name": "rt", "path": "harness/rt/", "serves_properties": ["C05"], "kind_free_text": "Rust harness calling the real runtime library (L3)"},
         ],
         "checks": [],
